@@ -138,6 +138,14 @@ func execC05(t *testing.T, p Plan, src kernel.Source) Result {
 		tier.Fake.Limits = false
 		h := chunked.NewHandler(w.DialBackend("l1", "h0"))
 		key := p.XS["key"]
+		// a second, intact key: what is lost of one key must not change what a multi-key get
+		// says about another
+		other := "o" + key
+		otherVal := fullWrite{data: bytes.Repeat([]byte("O"), 2*payloadFor(len(other))-3), flags: 31}
+		if r, ok := runTask(w, h, wire.Op{Kind: "set", Key: other, Data: otherVal.data, Flags: otherVal.flags, Opaque: 5}, false); !ok || r.Err != nil || r.Panic != "" {
+			res.Infra = fmt.Sprintf("set-up write of the second key failed: ok=%v %s", ok, r)
+			return
+		}
 		var writes []fullWrite
 		for i, st := range p.Steps {
 			if st.Op == nil {
@@ -206,6 +214,32 @@ func execC05(t *testing.T, p Plan, src kernel.Source) Result {
 		if m := checkRead(r2, writes); m != "" {
 			res.V = &Violation{Prop: "C05", Rule: "torn", Class: "torn:get-after-" + class, Msg: fmt.Sprintf("second read, %s: %s", where, m)}
 			return
+		}
+		// multi-key gets naming the damaged key and the intact one, in both orders: the intact
+		// key is a hit with its own value, the damaged one obeys the rule above
+		for oi, ks := range [][]string{{key, other}, {other, key}, {key, key, other}} {
+			rm, ok := runTask(w, h, wire.Op{Kind: "get", Keys: ks, Quiets: make([]bool, len(ks)), Opaque: uint32(910 + 10*oi)}, false)
+			if !ok || rm.Panic != "" {
+				res.V = &Violation{Prop: "C05", Rule: "hang", Class: "hang:mget/" + class, Msg: fmt.Sprintf("multi-key get %v never returned / panicked (%s): %v", ks, where, rm)}
+				return
+			}
+			gotOther := false
+			for _, hv := range rm.Hits {
+				if hv.Idx >= 0 && hv.Idx < len(ks) && ks[hv.Idx] == other {
+					gotOther = true
+					if m := checkRead(HRes{Hits: []ObsVal{hv}}, []fullWrite{otherVal}); m != "" {
+						res.V = &Violation{Prop: "C05", Rule: "torn", Class: "torn:mget-other/" + class, Msg: fmt.Sprintf("multi-key get %v, intact key: %s (%s)", ks, m, where)}
+						return
+					}
+				} else if m := checkRead(HRes{Hits: []ObsVal{hv}}, writes); m != "" {
+					res.V = &Violation{Prop: "C05", Rule: "torn", Class: "torn:mget/" + class, Msg: fmt.Sprintf("multi-key get %v: %s (%s)", ks, m, where)}
+					return
+				}
+			}
+			if rm.Err == nil && !gotOther {
+				res.V = &Violation{Prop: "C05", Rule: "collateral_miss", Class: "collateral_miss:" + class, Msg: fmt.Sprintf("multi-key get %v answered a miss for the intact key %q because entries of the other key were lost (%s)", ks, other, where)}
+				return
+			}
 		}
 		// when every write and the gat carried a lifetime, the key is nothing but a miss once
 		// the longest of them has passed: an add must then succeed and be read back whole
@@ -457,7 +491,7 @@ func genC05(seed uint64, tier string) Plan {
 func init() {
 	register(&Prop{
 		ID: "C05", Gen: genC05, Exec: execC05, Enumerate: enumC05, Level: "fault_enumeration",
-		Rule:       "(0) token sweeps: 1200 and 2600 (thorough also 6000) writes through one handler, the 16-byte per-write token read from every metadata entry must never repeat. (a) fault = loss of backend entries. For key lengths {1, 10, 100}, n = 0..6 chunks, no earlier value / an earlier value of 1 chunk / of n+2 chunks, every non-empty subset of {metadata, chunk 0..n-1} is removed from the simulated backend and the key is read through the real chunked handler by get and by gat, then read again; in a third of the cases every write carries a lifetime, and after it (and the gat's) has passed an add must succeed and be read back whole (thorough: all 2^(n+1)-1 subsets for every n; quick: all for n <= 4, a quarter for n = 5, 6, half for key length 100). (b) seeded interleavings: two writer tasks (values of different chunk counts, unique contents, different flags) and one or two reader tasks, in a third of the runs also a task that appends / prepends 1-2 unique payloads and reads, each on its own handler + backend connection, same key; the kernel chooses among task starts, individual backend requests and reply segments. Oracle: every read returns a miss or exactly the bytes and flags of one single set (with appends / prepends in the run: of one single set with a selection of the payloads applied whole). Every case is non-trivial; distinct = distinct plan hash",
+		Rule:       "(0) token sweeps: 1200 and 2600 (thorough also 6000) writes through one handler, the 16-byte per-write token read from every metadata entry must never repeat. (a) fault = loss of backend entries. For key lengths {1, 10, 100}, n = 0..6 chunks, no earlier value / an earlier value of 1 chunk / of n+2 chunks, every non-empty subset of {metadata, chunk 0..n-1} is removed from the simulated backend and the key is read through the real chunked handler by get and by gat, then read again, then read together with a second, intact key by multi-key gets in both orders (the intact key must be a hit with its own value); in a third of the cases every write carries a lifetime, and after it (and the gat's) has passed an add must succeed and be read back whole (thorough: all 2^(n+1)-1 subsets for every n; quick: all for n <= 4, a quarter for n = 5, 6, half for key length 100). (b) seeded interleavings: two writer tasks (values of different chunk counts, unique contents, different flags) and one or two reader tasks, in a third of the runs also a task that appends / prepends 1-2 unique payloads and reads, each on its own handler + backend connection, same key; the kernel chooses among task starts, individual backend requests and reply segments. Oracle: every read returns a miss or exactly the bytes and flags of one single set (with appends / prepends in the run: of one single set with a selection of the payloads applied whole). Every case is non-trivial; distinct = distinct plan hash",
 		Real:       realChunked,
 		Stub:       stubChunked,
 		FaultKinds: []string{"entry_loss"},
